@@ -3,6 +3,7 @@ use crate::engine::Ctx;
 pub mod c01;
 pub mod c02;
 pub mod c03;
+pub mod c04;
 pub mod c05;
 pub mod c06;
 pub mod c07;
@@ -17,6 +18,7 @@ pub fn run(ctx: &mut Ctx) {
         "C01" => c01::run_check(ctx),
         "C02" => c02::run_check(ctx),
         "C03" => c03::run_check(ctx),
+        "C04" => c04::run_check(ctx),
         "C05" => c05::run_check(ctx),
         "C06" => c06::run_check(ctx),
         "C07" => c07::run_check(ctx),
@@ -36,6 +38,7 @@ pub fn replay(ctx: &mut Ctx, case: &serde_json::Value) {
         "C01" => c01::replay(ctx, case),
         "C02" => c02::replay(ctx, case),
         "C03" => c03::replay(ctx, case),
+        "C04" => c04::replay(ctx, case),
         "C05" => c05::replay(ctx, case),
         "C06" => c06::replay(ctx, case),
         "C07" => c07::replay(ctx, case),
